@@ -1,7 +1,7 @@
 """C12 — symmetry, rigid-motion invariance, scaling (structural clauses)."""
 from . import scopes
 from ..core.report import DOMAIN_D
-from ..rules import frame, degree, mink, roles, affine, unpack, mirror, misc2, safediv
+from ..rules import colliders, generic2, frame, degree, mink, roles, affine, unpack, mirror, misc2, safediv
 from .common import e2
 
 
@@ -34,5 +34,7 @@ def run(idx, rep, tier):
     mirror.r_tournament(idx, rep)
     mirror.r_boxface(idx, rep)
     misc2.r_dupcond(idx, rep, [m.name for m in idx.lib_modules()], floor=3)
+    colliders.r_roundtrip(idx, rep)      # rigid-motion covariance of colliders stored without a pose matrix: update_pose reads the slots collider2origin writes
+    generic2.r_axispair(idx, rep, [m.name for m in idx.lib_modules()], floor=0)      # one site today; a vectorised test has no component pairs to mis-pair
     degree.r_tolunit(idx, rep, [m.name for m in idx.lib_modules() if "hydroelastic" not in m.name and "visual" not in m.name and "plot" not in m.name and "benchmark" not in m.name], floor=12, face_arrays=degree.EPA_FACES)
     unpack.r_unpack(idx, rep, floor=88)
